@@ -287,13 +287,43 @@ theorem no_ub_key_handlers_unref : ∀ (ops : List Op) (st : St), SInv .none st 
 
 /-- OPEN (statement only): key and mouse events delivered to window handlers with any actions, provided that no mouse
     handler claims an event and no drag source is set (the case in which handlers claim and all handlers free nothing
-    is `no_ub_handlers_keeping`; claiming together with dropping contains the known finding). -/
+    is `no_ub_handlers_keeping`; claiming together with dropping contains the known finding).  Proved of it:
+    `handle_mouse_any_actions_no_claim` below (the recursion of `_handle_mouse` itself).  Missing: (a) "no drag source
+    is set" through `_handle_mouse` (`Shr` of Proof/LifeFrames.lean needs a field for it as it has for "nothing claims";
+    `Casc.drag_sub` is proved in Proof/LifeDestroy.lean but not exported by `unrefT_ok` / `unrefW_ok`, and the lemmas for
+    hide / show / restack do not speak of the root's fields); (b) the wrappers of `on_term_mouse` (`FK` under `setRoot`,
+    `mousePrepare` / `mouseDeliver` with no drag source: every `unrefOpt` is on `none`, `dragStop` / `dragOutside` do
+    nothing); (c) both invariants through the operations that deliver no event (the analogue of `step_plain_keeps`). -/
 def no_ub_mouse_handlers_unref : Prop :=
   ∀ (ops : List Op) (st : St), SInv .none st → st.tree.root.dragSource = none →
     (∀ i b, b ∈ (getX st i).binds → b.ev = some .mouse → b.ret = false) →
     (∀ op ∈ ops, (op.plain = true ∨ op.penEvent = true ∨ op = .key ∨ ∃ m, op = .mouse m) ∧
       (∀ w ret acts, op = .bind w .mouse ret acts → ret = false)) →
     ∃ st', runOps extracted st ops = .ok st' ∧ SInv .none st'
+
+/-- **`_handle_mouse` with handlers of any actions, nothing claiming**: in every state between two operations in which
+    no mouse handler returns true, `_handle_mouse(root, info)` - the whole recursion over the counted snapshots of the
+    children, with handlers that drop their own window, its ancestors, the root window, anything - runs to its end,
+    returns no window, gives back every reference it took (the invariant of `no_ub` holds again: every count is the
+    application's tally) and still nothing claims.  Proof/LifeFrames.lean (`handleMouse_FK`): as no window is returned,
+    the references in flight are the frames' own and their snapshots', which obey the stack discipline of `_handle_key`. -/
+theorem handle_mouse_any_actions_no_claim (st : St) (info : Mouse) (inv : SInv .none st)
+    (hnc : ∀ i b, b ∈ (getX st i).binds → b.ev = some .mouse → b.ret = false) (r : WinTree.Win) (hr : LiveW st.tree 0 r) :
+    ∃ st', handleMouse extracted (routeFuel st) st 0 info = .ok (st', none) ∧ SInv .none st' ∧
+      (∀ i b, b ∈ (getX st' i).binds → b.ev = some .mouse → b.ret = false) := by
+  obtain ⟨r0, hr0, _, hrp⟩ := inv.tinv.root_ex
+  have : r0 = r := by rw [hr.1] at hr0; exact (Option.some.inj hr0).symm
+  subst this
+  obtain ⟨st', h, K', S'⟩ := handleMouse_FK extracted_repaired (routeFuel st) info (FK.of_inv inv Ghost.none_covers) hnc hr
+    (fun p hp => by rw [hrp] at hp; cases hp) (belowFree_root inv.tinv Ghost.none_covers) (by simp only [routeFuel]; omega)
+  exact ⟨st', h, K'.inv, S'.nc hnc⟩
+
+/-- Non-vacuity: a mouse handler on a grandchild that drops its own window, its parent and the root window without
+    claiming; `_handle_mouse` on the root returns no window. -/
+example : (match runOps extracted {} [.newTerm 6 12 false, .win 0 ⟨0, 0, 4, 8⟩ 0, .win 1 ⟨0, 0, 2, 4⟩ 0,
+      .bind 2 .mouse false [.unref 2, .unref 1, .unref 0]] with
+    | .ok st => (match handleMouse extracted (routeFuel st) st 0 ⟨1, 1, 1, 1⟩ with | .ok (st', none) => st'.log.length | _ => 99)
+    | _ => 98) = 1 := by decide +kernel
 
 /-- Instances the kernel can evaluate: a key handler that drops its own window, its parent and the root window
     (`no_ub_key_handlers_unref`); a mouse handler that does the same without claiming the event (the open statement). -/
